@@ -61,13 +61,22 @@ def records_view(records, ncols, itemsize=2):
         total = ite(end > total, end, total)
 
     def fn(r, c):
-        res = 0
+        res = None
         for start, pos, a in recs:
             inside = core.and_(r >= start, r < start + a.shape[0])
             if inside is False:
                 continue
-            res = ite(inside, a.fn(r - start, c), res)
-        return res
+            val = a.fn(r - start, c)
+            if res is None:
+                # bytes never written read as zero - of the same kind as the data (bit-vector / IEEE / integer term)
+                if isinstance(val, core.SBV):
+                    res = core.SBV(z3.BitVecVal(0, val.width), signed=val.signed)
+                elif isinstance(val, core.SFP):
+                    res = core.SFP(z3.FPVal(0.0, val.sort))
+                else:
+                    res = 0
+            res = ite(inside, val, res)
+        return 0 if res is None else res
     return LArr((total, ncols), fn, aid=None, tag=np.dtype(np.int16))
 
 
